@@ -948,7 +948,8 @@ class ServerSSM(SSM):
         if self.device_info and self.device_info.maxApduLengthAccepted is not None:
             if self.device_info.maxApduLengthAccepted < self.maxApduLengthAccepted:
                 if _debug: ServerSSM._debug("    - apduMaxResp encoding error")
-            else:
+            elif encode_max_apdu_length_accepted(self.device_info.maxApduLengthAccepted) == apdu.apduMaxResp:
+                # the request carries a code that rounds down, the cached value is the exact one
                 self.maxApduLengthAccepted = self.device_info.maxApduLengthAccepted
         if _debug: ServerSSM._debug("    - maxApduLengthAccepted: %r", self.maxApduLengthAccepted)
 
